@@ -84,9 +84,9 @@ OPTS = ("gap", "onstart", "onend", "maxgap", "gaplen")
 
 def decorate(rng, ap):
     """give some dependencies options that the generators do not use (each alone and combined):
-    maxgapduration, gaplength.  maxgapduration only where the edge is the successor's sole constraint (leaf to leaf, no
-    other own, inherited or inverted dependency, no start of its own or of a container): together with competing
-    constraints the scheduler's handling of it depends on the spelling - known finding K03, kept as a fixed case"""
+    maxgapduration, gaplength.  maxgapduration on leaf-to-leaf edges, also next to other own, inherited or inverted
+    dependencies and dates of the successor (until repair F49 the handling of such an edge depended on its spelling:
+    former known finding K03, whose fixed case is still run)"""
     edges = projects.all_edges(ap)
     idx = projects.task_index(ap)
 
@@ -94,9 +94,7 @@ def decorate(rng, ap):
         succ, pred = tuple(succ), tuple(pred)
         if succ not in idx or pred not in idx or "kids" in idx[succ] or "kids" in idx[pred]:
             return False
-        if any(idx[succ[:k]].get("start") is not None or idx[succ[:k]].get("end") is not None for k in range(1, len(succ) + 1)):
-            return False
-        return len(edges.get(succ, [])) == 1
+        return True
     for p, n in projects.walk(ap["tasks"]):
         for key in ("deps", "precedes"):
             for d in n.get(key, []) or []:
@@ -343,7 +341,7 @@ def run(ctx):
         if diff:
             bad.append({"what": f"rewrite '{name}' changed reported dates", "differences": dict(list(diff.items())[:4]),
                         "original": projects.render(ap), "rewritten": t})
-    # K03 (known finding, fixed case): one edge written as 'precedes { maxgapduration }' on the predecessor or as
+    # K03 (former known finding, repaired by F49; the fixed case stays as a regression): one edge written as 'precedes { maxgapduration }' on the predecessor or as
     # 'depends { maxgapduration }' on the successor, next to competing constraints on the same successor
     known_lines = []
     here = os.path.dirname(os.path.abspath(__file__))
@@ -374,5 +372,5 @@ def run(ctx):
            "samples": [{"rewrite": metas[0][1], "text": texts[0][:900]}]}
     common.finish(ctx, "proof", cov, violations,
                   ["partial: the Lark grammar / lexer is not modelled; the theorems cover reference resolution under renaming and the precedes inversion; everything else is decided by the rewrite runs",
-                   "maxgapduration is generated only where it is the successor's sole constraint (K03: next to competing constraints its handling depends on the spelling - recorded known finding, fixed case harness/props/c15_k03_*.tjp)"],
+                   "maxgapduration is generated on leaf-to-leaf edges only"],
                   known_lines)
